@@ -365,6 +365,7 @@ func (e *kvElection) becomeLeader(token string, rev uint64) {
 		}
 	}
 
+	e.healthFailureCount.Store(0)
 	e.isLeader.Store(true)
 	e.leaderID.Store(e.cfg.InstanceID)
 	e.token.Store(token)
